@@ -322,9 +322,12 @@ fn separate_rules(text: &str) -> Result<Vec<String>, String> {
         let ch = *ch;
         rule_str.push(ch);
         // A period between two digits is a decimal point (3.14), not the
-        // end of a rule.
+        // end of a rule - unless the digits after it run into letters:
+        // '... = 5.' followed by the rule '7up(a).' is not the number 5.7.
         let decimal_point = ch == '.' && i > 0 && i + 1 < chrs.len() &&
-            chrs[i - 1].is_ascii_digit() && chrs[i + 1].is_ascii_digit();
+            chrs[i - 1].is_ascii_digit() && chrs[i + 1].is_ascii_digit() &&
+            !chrs[i + 1..].iter().skip_while(|c| c.is_ascii_digit())
+                 .next().map_or(false, |c| c.is_alphabetic());
         if ch == '.' && !decimal_point && round_depth == 0 &&
             square_depth == 0 && num_quotes % 2 == 0 {
             rules.push(rule_str);
